@@ -1,4 +1,4 @@
-(* Props/C07.v — property theorems only; each closed by `exact <lemma>` (proofs in Lmmm/{Voices,VoicesSwap}.v).
+(* Props/C07.v — property theorems only; each closed by `exact <lemma>` (proofs in Lmmm/{Voices,VoicesSwap,VoicesEdit}.v).
 
    C07 (voices survive a live edit).  A "voice" is an output expression e of dsp that depends on the dsp
    inputs only (`closed_voice`); `voice_range p j = Some (off, sz)` is the range of flat state words the
@@ -20,7 +20,7 @@
    All definitions used here live in Lmmm/Spec.v and the model files Lmmm/HotSwap.v, StateTree/Model.v. *)
 From Coq Require Import List ZArith NArith Bool.
 From Mimium Require Import StateTree.Model Lmmm.Syntax Lmmm.Ref Lmmm.Compile Lmmm.Machine Lmmm.Wf
-  Lmmm.HotSwap Lmmm.Spec Lmmm.Swap Lmmm.Voices Lmmm.VoicesSwap Lmmm.Examples.
+  Lmmm.HotSwap Lmmm.Spec Lmmm.Swap Lmmm.Voices Lmmm.VoicesSwap Lmmm.VoicesEdit Lmmm.Examples.
 Import ListNotations.
 
 (* a carried voice continues: channel j of the new program after the swap = channel i of the old program had
@@ -71,6 +71,83 @@ Proof. exact voice_continues. Qed.
 (* a swap that does not happen leaves program and state unchanged *)
 Theorem C07_failed_edit_noop : forall p_new cur, compile p_new = None -> try_swap p_new cur = cur.
 Proof. exact failed_edit_noop. Qed.
+
+(* ---- insert / delete edits of voice programs, via C08_survivors_whole ----
+   `voice_prog p`: dsp has no lets and every output is a closed voice publishing exactly one skeleton child
+   (`voice_skel p j`), so the children of the published skeleton are the voices' skeletons in order;
+   `sublist l1 l2`: l1 is l2 with elements deleted; `continues ... i j` (Spec.v): after hot_swap, channel j of
+   the new program = channel i of the old program had it kept running. *)
+
+(* voices deleted: every remaining voice whose skeleton has cells is carried (voice_carried) from SOME old voice i
+   with the identical skeleton; if that old voice is the same expression, the channel continues *)
+Theorem C07_voices_delete : forall d p1 cp1 p2 cp2 j e c t0 rows1 m1 t1 rows2,
+  compile p1 = Some cp1 -> wf_prog p1 = true -> compile p2 = Some cp2 -> wf_prog p2 = true ->
+  voice_prog p1 = true -> voice_prog p2 = true ->
+  p_funs p2 = p_funs p1 -> p_inputs p2 = p_inputs p1 ->
+  sublist (p_outs p2) (p_outs p1) ->
+  nth_error (p_outs p2) j = Some e -> voice_skel p2 j = Some c -> (0 < count_cells c)%N ->
+  rows_ok p1 rows1 -> final_state d p1 cp1 t0 rows1 (init_state d cp1) = Some m1 -> rows_ok p1 rows2 ->
+  exists i off1 off2,
+    voice_skel p1 i = Some c /\ voice_range p1 i = Some (off1, size c) /\ voice_range p2 j = Some (off2, size c) /\
+    voice_carried (published_skeleton cp1) (published_skeleton cp2) off1 off2 (size c) /\
+    (nth_error (p_outs p1) i = Some e -> continues d p1 cp1 p2 cp2 m1 t1 rows2 i j).
+Proof. exact voices_delete. Qed.
+
+(* voices inserted: every old voice whose skeleton has cells is carried to SOME new voice j with the identical
+   skeleton; if that new voice is the same expression, the channel continues *)
+Theorem C07_voices_insert : forall d p1 cp1 p2 cp2 i e c t0 rows1 m1 t1 rows2,
+  compile p1 = Some cp1 -> wf_prog p1 = true -> compile p2 = Some cp2 -> wf_prog p2 = true ->
+  voice_prog p1 = true -> voice_prog p2 = true ->
+  p_funs p2 = p_funs p1 -> p_inputs p2 = p_inputs p1 ->
+  sublist (p_outs p1) (p_outs p2) ->
+  nth_error (p_outs p1) i = Some e -> voice_skel p1 i = Some c -> (0 < count_cells c)%N ->
+  rows_ok p1 rows1 -> final_state d p1 cp1 t0 rows1 (init_state d cp1) = Some m1 -> rows_ok p1 rows2 ->
+  exists j off1 off2,
+    voice_skel p2 j = Some c /\ voice_range p1 i = Some (off1, size c) /\ voice_range p2 j = Some (off2, size c) /\
+    voice_carried (published_skeleton cp1) (published_skeleton cp2) off1 off2 (size c) /\
+    (nth_error (p_outs p2) j = Some e -> continues d p1 cp1 p2 cp2 m1 t1 rows2 i j).
+Proof. exact voices_insert. Qed.
+
+(* when the voices' skeletons are pairwise distinct, the voice is carried from / to its own original:
+   "untouched call sites continue" for insert/delete edits (identically shaped voices may exchange state,
+   which is what the property's "up to exchange among identically shaped siblings" allows; see C07_ex_swap_run) *)
+Theorem C07_untouched_voices_continue_delete : forall d p1 cp1 p2 cp2 j e c t0 rows1 m1 t1 rows2,
+  compile p1 = Some cp1 -> wf_prog p1 = true -> compile p2 = Some cp2 -> wf_prog p2 = true ->
+  voice_prog p1 = true -> voice_prog p2 = true ->
+  p_funs p2 = p_funs p1 -> p_inputs p2 = p_inputs p1 ->
+  sublist (p_outs p2) (p_outs p1) -> NoDup (voice_skels p1) ->
+  nth_error (p_outs p2) j = Some e -> voice_skel p2 j = Some c -> (0 < count_cells c)%N ->
+  rows_ok p1 rows1 -> final_state d p1 cp1 t0 rows1 (init_state d cp1) = Some m1 -> rows_ok p1 rows2 ->
+  exists i, nth_error (p_outs p1) i = Some e /\ continues d p1 cp1 p2 cp2 m1 t1 rows2 i j.
+Proof. exact voices_delete_distinct. Qed.
+
+Theorem C07_untouched_voices_continue_insert : forall d p1 cp1 p2 cp2 i e c t0 rows1 m1 t1 rows2,
+  compile p1 = Some cp1 -> wf_prog p1 = true -> compile p2 = Some cp2 -> wf_prog p2 = true ->
+  voice_prog p1 = true -> voice_prog p2 = true ->
+  p_funs p2 = p_funs p1 -> p_inputs p2 = p_inputs p1 ->
+  sublist (p_outs p1) (p_outs p2) -> NoDup (voice_skels p2) ->
+  nth_error (p_outs p1) i = Some e -> voice_skel p1 i = Some c -> (0 < count_cells c)%N ->
+  rows_ok p1 rows1 -> final_state d p1 cp1 t0 rows1 (init_state d cp1) = Some m1 -> rows_ok p1 rows2 ->
+  exists j, nth_error (p_outs p2) j = Some e /\ continues d p1 cp1 p2 cp2 m1 t1 rows2 i j.
+Proof. exact voices_insert_distinct. Qed.
+
+(* satisfiability: v_old = (cnt(1), f2(3)) has pairwise distinct skeletons; v_del deletes cnt(1); v_new inserts cnt(5) *)
+Example C07_ex_voice_progs :
+  voice_prog v_old = true /\ voice_prog v_new = true /\ voice_prog v_del = true /\
+  wf_prog v_del = true /\ compile v_del = Some (compiled v_del) /\
+  voice_skels v_old = [[FnCall [Feed 1%N]]; [FnCall [Mem 1%N; Delay 3%N]]] /\
+  voice_skel v_del 0 = Some (FnCall [Mem 1%N; Delay 3%N]).
+Proof. exact v_voice_progs. Qed.
+Example C07_ex_sublists : sublist (p_outs v_del) (p_outs v_old) /\ sublist (p_outs v_old) (p_outs v_new).
+Proof. exact v_sublists. Qed.
+Example C07_ex_distinct : NoDup (voice_skels v_old).
+Proof. exact v_old_distinct. Qed.
+(* deleting cnt(1): f2(3) moves from channel 1 to channel 0 and continues 6,6,6 (old channel 1: 0,3,6,6,6,6) *)
+Example C07_ex_delete_run :
+  option_map (fun r => map (chan 0) (outs_of r))
+             (swap_run VmD v_old (compiled v_old) v_del (compiled v_del) [[];[];[]] [[];[];[]])
+  = Some [Some 6; Some 6; Some 6]%Z.
+Proof. exact v_delete_run. Qed.
 
 (* ---- a concrete edit: old = (cnt(1), f2(3)), new = (cnt(1), cnt(5), f2(3)) ---- *)
 Example C07_ex_programs :
